@@ -21,9 +21,8 @@ def main():
         n += sum(v for k, v in (o["evals"] or {}).items() if k == "RegexMatch.convert")
         for f in o["fails"] or []:
             if "end-of-input" in f["msg"]:
-                rep.failed_ob(Finding("C17", "C17/rtc/RegexMatch.convert/never-consumes-End", f"{o['prog']}|End", f"{o['prog']}: {f['msg']}",
+                rep.bounded_violation(Finding("C17", "C17/rtc/RegexMatch.convert/never-consumes-End", f"{o['prog']}|End", f"{o['prog']}: {f['msg']}",
                                       replay={"program": o["prog"], "source": next(p["src"] for p in ps if p["name"] == o["prog"])}, replayed=True))
-                rep.obligations -= 1
     rep.bounded_count("regex DFAs checked never to consume End (product states x symbols)", n)
     rep.fn("RegexMatch._create_dfa_state (End routed to the error path)", "EndMatch.convert")
     rep.coverage["bound"] = "per program; the End-exclusion of regexes is a run-time contract over the generated regex set (bounded)"
